@@ -783,9 +783,10 @@ def check_convergence(mbi, case, eng, last, probes):
             a = np.asarray(mu0[cl].values, dtype=float)
             if a.size > 1 and np.isfinite(a).all() and a.sum() > 0:
                 rel = a / a.sum()
-                # numerically one-hot, or some cell (not an exact structural zero) holds less than 1e-50 of the mass:
-                # entropic mirror descent needs a parameter change of > 115 to bring such a cell back
-                if (a.sum() - a.max()) / a.sum() < 1e-9 or np.any((rel > 0) & (rel < 1e-50)):
+                # numerically one-hot, or some cell (not an exact structural zero) holds less than 1e-16 of the mass - below the
+                # resolution of a double next to the rest, so the loss cannot respond to it and MD's Armijo test fails for good
+                # (measured boundary on the unchanged tree: a cell at exp(-36) of the mass recovers, one at exp(-40) never does)
+                if (a.sum() - a.max()) / a.sum() < 1e-9 or np.any((rel > 0) & (rel < 1e-16)):
                     onehot = True
     except Exception:
         pass
